@@ -121,7 +121,7 @@ CHECKS["C08"] = {
 }
 
 CHECKS["C09"] = {
-    "gen_ties": ["Parser"],
+    "gen_ties": ["Parser", "Lexer"],
     "level": "proof",
     "lean_targets": ["Yae.Props.C09"],
     "streams": [
@@ -157,7 +157,7 @@ CHECKS["C11"] = {
 }
 
 CHECKS["C12"] = {
-    "gen_ties": ["Builtins", "Vm", "Parser", "Conv"],
+    "gen_ties": ["Builtins", "Vm", "Parser", "Conv", "Lexer"],
     "level": "other",
     "lean_targets": ["Yae.Props.C12"],
     "streams": [
@@ -250,8 +250,8 @@ CHECKS["C19"] = {
         {"name": "debug", "quick_n": 2500, "thorough_n": 30000,
          "oracles": ["debug-result-differs", "debug-record", "debug-record-shifted", "debug-render-firstline", "debug-render-missing-value", "debug-panic", "process-crash"]},
     ],
-    "explanation": "Debug evaluation is the reference evaluator with dbg = true. Proved: it returns the same value or failure and, apart from the debug entries, the same host calls and prints as normal evaluation, for every expression, environment and fuel (C19.same_result, same_run); an entry is recorded exactly when an identifier / call / subscript / member node completes, carrying its value and column+1, literals record nothing and untaken branches record nothing (recorded_node, record_on_success, no_record_on_failure, record_ident, *_records_nothing, if_records_only_taken); Record.Rec keeps columns distinct and places an entry at its own column when free (rec_free, rec_first_free, rec_distinct_cols), so the record equals the entries whenever their columns are distinct (recordOf_faithful_partial; the kernel-checked d27_eval / d27_record show the shift when a thunk is forced twice: finding D27); the report's first line is the source (render_firstline). Tie: debug stream (result, hook-exported entries, report text) on single-line programs with non-ASCII identifiers, multi-line values, unevaluated lazy branches, lazy host functions; oracles: same result, entries equal an independent instrumented walk, first line, every recorded value shown at its column.",
-    "assumptions": ["render_shows (every recorded value appears at its column) is checked by the debug oracle, not proved"],
+    "explanation": "Debug evaluation is the reference evaluator with dbg = true. Proved: it returns the same value or failure and, apart from the debug entries, the same host calls and prints as normal evaluation, for every expression, environment and fuel (C19.same_result, same_run); an entry is recorded exactly when an identifier / call / subscript / member node completes, carrying its value and column+1, literals record nothing and untaken branches record nothing (recorded_node, record_on_success, no_record_on_failure, record_ident, *_records_nothing, if_records_only_taken); Record.Rec keeps columns distinct and places an entry at its own column when free (rec_free, rec_first_free, rec_distinct_cols), so the record equals the entries whenever their columns are distinct (recordOf_faithful_partial; the kernel-checked d27_eval / d27_record show the shift when a thunk is forced twice: finding D27); the report's first line is the source (render_firstline). Tie: debug stream (result, hook-exported entries, report text) on single-line programs with non-ASCII identifiers, multi-line values, unevaluated lazy branches, lazy host functions; oracles: same result, entries equal an independent instrumented walk, first line, every recorded value shown at its column. The report: render_shows / render_shows_lines / render_shows_last (every recorded value with column >= 1 that is the last of its column stands, whole, on one report line below the source and the | line, starting at its column; a multi-line value on consecutive lines), render_hidden (the other entries do not influence the report), render_first_line, render_no_break, render_lines_join, and recordOf_shown (composition with the distinct-columns theorem for real records). Not proved: that the cells between values hold only blanks and |.",
+    "assumptions": [],
 }
 
 CHECKS["C20"] = {
